@@ -99,6 +99,17 @@ def table_defs():
     T.append(("Point::x_y", r"^%spoint::Point::<T>::x_y$" % GT, [point(C(0))], [(a,) for a in GRID], lambda w: {C(0): w[0]}, xy, lambda w: (w[0]["x"], w[0]["y"])))
     T.append(("Triangle::to_array", r"^%striangle::Triangle::<T>::to_array$" % GT, [("&", ("adt", GT + "triangle::Triangle", "Triangle", (C(0), C(1), C(2))))], three, env3,
               lambda v: tuple(xy(c) for c in v), lambda w: tuple((c["x"], c["y"]) for c in w)))
+    def line_pts(v):
+        return (xy(v["start"]), xy(v["end"]))
+    T.append(("Rect::to_lines", r"^%srect::Rect::<T>::to_lines$" % GT, [R], rs, env2, lambda v: tuple(line_pts(l) for l in v),
+              lambda w: tuple(((a[0], a[1]), (b[0], b[1])) for a, b in
+                              [((w[1]["x"], w[0]["y"]), (w[1]["x"], w[1]["y"])), ((w[1]["x"], w[1]["y"]), (w[0]["x"], w[1]["y"])),
+                               ((w[0]["x"], w[1]["y"]), (w[0]["x"], w[0]["y"])), ((w[0]["x"], w[0]["y"]), (w[1]["x"], w[0]["y"]))])))
+    TRI = ("&", ("adt", GT + "triangle::Triangle", "Triangle", (C(0), C(1), C(2))))
+    T.append(("Triangle::to_lines", r"^%striangle::Triangle::<T>::to_lines$" % GT, [TRI], three, env3, lambda v: tuple(line_pts(l) for l in v),
+              lambda w: tuple(((w[i]["x"], w[i]["y"]), (w[(i + 1) % 3]["x"], w[(i + 1) % 3]["y"])) for i in range(3))))
+    T.append(("Triangle::from([c;3])", r"^<%striangle::Triangle<T> as core::convert::From<\[IC; 3\]>>::from$" % GT, [("array", (C(0), C(1), C(2)))], three, env3,
+              lambda v: tuple(xy(v[k]) for k in ("0", "1", "2")), lambda w: tuple((c["x"], c["y"]) for c in w)))
     # operator impls of Coord
     for op, ref in (("add", lambda a, b: (a["x"] + b["x"], a["y"] + b["y"])), ("sub", lambda a, b: (a["x"] - b["x"], a["y"] - b["y"]))):
         T.append(("Coord::%s" % op, r"^<%scoord::Coord<T> as core::ops::arith::%s>::%s$" % (GT, op.capitalize(), op), [C(0), C(1)], two, env2, xy, lambda w, ref=ref: ref(w[0], w[1])))
@@ -152,7 +163,7 @@ def run(rep, F, rule, select=None):
         else:
             n += 1
             rep.ok(rule, "gt:%s[%d witnesses]" % (key, k))
-    rep.floor(rule, "accessor tables", n, len(select) if select else 26)
+    rep.floor(rule, "accessor tables", n, len(select) if select else 29)
 
 
 def fmtw(w):
